@@ -87,6 +87,18 @@ class UnionDomain(Domain):
             return_value_of_a_b=True, params=repeated_params, device=device
         )
         volume_ratio = torch.divide(volume_a, volume_approx)
+        # volume_approx counts the overlap twice. The share q of the b-points
+        # outside of domain a (per parameter row) estimates the overlap:
+        # |a or b| = |a| + q*|b|. A row whose b-point lies in a has to take its
+        # a-point, the other rows take it with the probability that makes the
+        # total share of a equal to |a| / |a or b|.
+        if not self.disjoint:
+            outside = torch.logical_not(in_a).reshape(-1, n).float()
+            q = torch.mean(outside, dim=1, keepdim=True).repeat_interleave(n, dim=0)
+            q = torch.clamp(q, min=1.0 / n)
+            volume_b = volume_approx - volume_a
+            share_a = volume_a / (volume_a + q * volume_b)
+            volume_ratio = torch.clamp((share_a - (1 - q)) / q, min=0.0, max=1.0)
         # choose points depending of the proportion of the domain w.r.t. the
         # whole domain union
         rand_index = torch.rand((max(n, len(repeated_params)), 1), device=device)
